@@ -420,6 +420,17 @@ class _Seconds(float):
     """A user's unit type: a float subclass."""
 
 
+class _EntityClock:
+    """The clock as the entity that is handling the current event sees it (`entity.now`)."""
+
+    def __init__(self, entity):
+        self._e = entity
+
+    @property
+    def now(self):
+        return self._e.now
+
+
 class RealRun:
     """Builds the program out of real Entities / Events / SimFutures.
 
@@ -616,7 +627,10 @@ class RealRun:
             def handle_event(self, event):
                 pid = event.context["metadata"]["pid"]
                 self.handled += 1
-                run.log.append(("D", self._clock.now.nanoseconds, event.time.nanoseconds, pid))
+                # `self.now` is the time a user's entity sees; it must be the clock of the simulation delivering the
+                # event (C02-r8-1: set_clock() kept the clock of an earlier Simulation built over the same entities)
+                run.log.append(("D", self.now.nanoseconds, event.time.nanoseconds, pid))
+                run.clock = _EntityClock(self)
                 action = table.get(f"{self.idx}:{event.event_type}") or {"kind": "none"}
                 k = action["kind"]
                 if k == "none":
@@ -654,8 +668,20 @@ class RealRun:
             kw["duration"] = (end - start) / NS
         else:
             kw["end_time"] = Instant(end) if end is not None else (Instant.Infinity if self.p.get("explicit_infinity") else None)
+        prior = self.p.get("prior_sim")
+        if prior is None:
+            import json as _json
+            import zlib as _zlib
+
+            prior = _zlib.crc32(_json.dumps(self.p, sort_keys=True, default=str).encode()) % 4 == 0
+        if prior:
+            # model reuse: the same entity objects were registered in an earlier Simulation (built, run with nothing
+            # to do, discarded) whose clock stands at another instant; the new run must not see anything of it
+            old = Simulation(entities=list(self.entities), start_time=Instant(start + 987_654_321), end_time=Instant(start + 987_654_400))
+            old.run()
         self.sim = Simulation(entities=list(self.entities), **kw)
         self.clock = self.sim._clock
+        self.sim_clock = self.sim._clock
         if self.p.get("watch"):
             pending = [dict(w) for w in self.p["watch"]]
 
